@@ -97,9 +97,17 @@ def run_tree(rnd, res, steps, tseed=None):
     def snapshot(o):
         return (o.render_cls, tuple((c, fields(ns), id(ns)) for c, ns in o._namespaces.items()))
 
+    tuned = {}
+
     def rand_ns(bias_default=0.5):
         c = rnd.choice(list(owners))
         A = owners[c]
+        if rnd.random() < 0.2:
+            # a namespace class that inherits fields and association from the class's own
+            # (the documented way to add behaviour to a namespace): same values, same set
+            if c not in tuned:
+                tuned[c] = type("T" + A.__name__, (A,), {})
+            A = tuned[c]
         r = rnd.random()
         if r < 0.15:
             # the very object that is the class's shared default namespace
